@@ -3,10 +3,15 @@ package main
 import (
 	"bytes"
 	"context"
+	"crypto/rand"
+	"crypto/rsa"
+	"crypto/x509"
+	"crypto/x509/pkix"
 	"encoding/json"
 	"errors"
 	"fmt"
 	"io"
+	"math/big"
 	"reflect"
 	"runtime/debug"
 	"strings"
@@ -91,7 +96,8 @@ func newCertSet() *certSet {
 	cs.certs["A"] = pk.Std("ecdsa", names...)
 	cs.certs["Arsa"] = pk.Std("rsa", names...)
 	cs.certs["B"] = pk.Std("ecdsa", names...)
-	cs.certs["Brsa"] = pk.Leaf("rsa", names, time.Now().Add(-2*time.Hour), time.Now().Add(48*time.Hour))
+	// (hlib issues every RSA leaf for one shared key; "another valid certificate" must carry another key)
+	cs.certs["Brsa"] = otherRSALeaf(pk, names)
 	cs.certs["wrongname"] = pk.Std("ecdsa", "other.example")
 	cs.certs["wrongname_rsa"] = pk.Std("rsa", "other.example")
 	cs.certs["expired"] = pk.Leaf("ecdsa", names, time.Now().Add(-48*time.Hour), time.Now().Add(-24*time.Hour))
@@ -107,6 +113,22 @@ func newCertSet() *certSet {
 		cs.byDER[string(c.Certificate[0])] = "client_" + k
 	}
 	return cs
+}
+
+// otherRSALeaf issues a leaf for a fresh RSA key under the test CA.
+func otherRSALeaf(pk *hlib.PKI, names []string) tls.Certificate {
+	key, err := rsa.GenerateKey(rand.Reader, 2048)
+	if err != nil {
+		panic(err)
+	}
+	tpl := &x509.Certificate{SerialNumber: big.NewInt(time.Now().UnixNano()), Subject: pkix.Name{CommonName: names[0]}, DNSNames: names,
+		NotBefore: time.Now().Add(-2 * time.Hour), NotAfter: time.Now().Add(48 * time.Hour),
+		KeyUsage: x509.KeyUsageDigitalSignature | x509.KeyUsageKeyEncipherment, ExtKeyUsage: []x509.ExtKeyUsage{x509.ExtKeyUsageServerAuth}}
+	der, err := x509.CreateCertificate(rand.Reader, tpl, pk.CA, &key.PublicKey, pk.CAKey)
+	if err != nil {
+		panic(err)
+	}
+	return tls.Certificate{Certificate: [][]byte{der}, PrivateKey: key}
 }
 
 func (cs *certSet) label(der []byte) string {
